@@ -121,6 +121,92 @@ CHECKS = {
          "The harness's contexts are cross-checked frame by frame against the spec's universe (mismatch = exit 2). One tolerance pinned by the repository's own "
          "tests: in a frame without ReadStates a signer with the CustomGroups bit may be refused (fault) - recorded, not judged.",
          "spec-as-oracle exhaustive enumeration by TLC; Impl=>Abstract model check; TLC judging of recorded observations"),
+ "C02": ("model_checking",
+         "NodeDisk.tla models the node's disk as the persisted facts start-up reads (tip pointers, bodies, headers, header-hash pages, state roots, flat-storage "
+         "height per prefix, active prefix, stage markers, GC mark) that change ONLY by the atomic batches the real node issues: flush, the GC passes, Reset's "
+         "asynchronously flushed stage batches (incl. merges and the concurrent stale-prefix GC) and the state-jump stages. TLC exhaustively checks that a crash "
+         "between any two batches (up to 3 per behaviour) followed by restart/resume satisfies NoDead, HeightBound, RecoverOK, ResetConfluence and "
+         "MarkersFollowData; six named deviations are each caught. TLC-generated schedules run on a real core.Blockchain behind a recording store; EVERY prefix "
+         "of the recorded batch sequence (plus the other order of concurrently issued batches, plus second crashes during a resume) is reopened with "
+         "core.NewBlockchain and compared with a never-restarted reference: digest at the recovered height, trie-vs-flat, acceptance of all remaining blocks with a "
+         "digest per block, raw database dump against the uninterrupted reset/jump. Recorded batches and outcomes are judged by TLC (NodeDiskTrace).",
+         "DESIGN.md section 4 C02",
+         "Crash points are exactly the PutChangeSet/SeekGC commits (backend atomicity assumed, no torn batches). Images are replayed into a MemoryStore and "
+         "checked against the real backend at the end of each run; BoltDB worlds also reopen file copies taken after each commit, LevelDB worlds reopen a fresh "
+         "DB holding the image. Flush and GC only between blocks. State sync: MPT mode only, judged from the first jump batch on (collection-phase crash points "
+         "are not covered).",
+         "TLA+ disk/batch model checked by TLC; crash-point enumeration on real code (every batch prefix reopened); TLC trace validation"),
+ "C04": ("model_checking",
+         "TLC checks exhaustively that neo-go's layering optimisation (a private DAO layer is pushed only if the calling contract is inside a TRY and the flags "
+         "allow writes/notifications; commit or drop in the unload callback; native caches copied on write per layer; notification list truncated) equals an "
+         "always-snapshot nested-transaction machine, for every call tree of 2-3 contracts, depth 2-3, 6-7 statements, 1-2 TRY levels, subroutines, a cached "
+         "native setting, GAS transfers and onNEP17Payment callbacks; and that the recursive semantics Sem(tree) equals that machine on all 595k tree prefixes of "
+         "<=5 statements; 5 named deviations are caught. All enumerated trees, TLC simulation walks and seeded random trees are compiled to real contracts "
+         "(exact TRY/CATCH/FINALLY/CALL layout) and run in real blocks; TLC judges against Sem: VM state, storage, notifications (AER and subscription feed), "
+         "balances, transfer log, Policy cache and storage, deployments, the fee-only rule for faulted transactions. Statement-level hook traces of the real VM "
+         "are replayed through the machine (ExecSteps).",
+         "DESIGN.md section 4 C04",
+         "Trusted: TLC, the harness's emit-based tree compiler (checked indirectly by control-flow agreement of the step traces), neotest chain. Model bounds are "
+         "global statement budgets. Calls made while an exception is pending are counted, not judged. AER.Events of a FAULTed transaction is not judged (the "
+         "repository's own test pins that pre-fault notifications stay there); judged instead: nothing delivered to subscribers, no transfer logged. Natives "
+         "covered: Policy.setFeePerByte, GAS.transfer, Management.deploy (abstract level).",
+         "two-level TLA+ spec; TLC exhaustive Impl == nested transactions; TLC enumeration/simulation compiled to real contracts in real blocks; TLC trace validation"),
+ "C06": ("model_checking",
+         "Accept.tla states the property (a block is accepted only if valid and fitting the recorded header chain; a rejected block leaves ledger, mempool and "
+         "store untouched; only a validly signed and linked header may be recorded; the correct block is still accepted afterwards). TLC checks the code-shaped "
+         "AddBlock/AddHeaders model against it for every offer description in every reachable state, and prints the case table (8 chain-state kinds x "
+         "StateRootInHeader x VerifyTransactions x AddBlock/AddHeaders x 50 corruption kinds x raw/resealed; 1557 rows). Every row is built as a real corrupted "
+         "block from a generated valid next block and offered to a fresh real node; seeded single-bit flips of the wire bytes are offered too. TLC (AcceptTrace) "
+         "judges every step from before/after observations: heights, tip, header chain, 13-component digest, state-root module, mempool incl. witnesses, full "
+         "key/value dump of the store after a forced flush; then the correct block is offered and must reproduce the reference digest.",
+         "DESIGN.md section 4 C06",
+         "Trusted: the harness's own description of each offered block, its own Merkle/header-hash/multisig verifier (stdlib sha256/ECDSA), chainkit.Compute as "
+         "the observation of ledger state. Transaction clauses judged with VerifyTransactions=true only. In-memory stores. The good block is required afterwards "
+         "only when the header chain is untouched or holds the correct block's header. With VerifyTransactions=false a block with its last transaction "
+         "duplicated (same Merkle root) is accepted - recorded as drift (configuration outside the judged clauses).",
+         "TLC exhaustive Impl=>Abstract; TLC-enumerated case table replayed on real nodes; TLC trace validation"),
+ "C10": ("model_checking",
+         "TLC proves exhaustively on small universes (7 keys with prefix chains, long shared nibble prefixes, empty value; 5 keys with every change set) that the "
+         "local Put/Delete rewrites of trie.go and the PutBatch restructuring of batch.go yield exactly the canonical structure Build(content) of MPTCanon.tla, that "
+         "the three structural invariants of mpt/doc.go hold, and that proofs are complete, minimal and sound for every subset of own + foreign proof nodes under an "
+         "injective hash. TLC-generated histories (put, delete, batch, flush, persist, collapse(n), reload incl. discard of unflushed changes, reads, searches, "
+         "tampered proofs) are replayed on the real mpt.Trie in ModeAll/ModeLatest/ModeGC, seeded random histories over 5-30-key universes (max-length keys, long "
+         "values) are added. Every step is judged by TLC: root = root of a fresh trie; root = real hash of the canonical structure TLC printed; node structure "
+         "decoded by hash from the root = Build(content); Get, TrieStore.Get, Find, TrieStore.Seek agree with the content; VerifyProof complete, and sound under 15 "
+         "tampering families.",
+         "DESIGN.md section 4 C10",
+         "Hash injectivity assumed (double SHA-256). The driver's node decoder and hash linking are independent of trie.go/batch.go. MemCachedStore over "
+         "MemoryStore. Find/Seek judged on store-rooted tries over a flushed store (Trie.Find on a live unflushed trie collapses in-memory nodes: recorded as "
+         "drift, production never does it). Keys strictly extending Prefix+Start in a backwards Seek are not judged (as in C09).",
+         "TLA+/TLC exhaustive refinement of the restructuring code; TLC behaviour replay; TLC trace validation"),
+ "C11": ("model_checking",
+         "After every block, flush, GC run, re-initialisation and dropped block the raw DataMPT table of the real store is dumped and re-assembled in TLC "
+         "(MPTRefTrace), which recomputes reachability and per-node occurrence counts FROM THE TABLE ITSELF and checks: stored count = occurrences in the latest "
+         "trie; unreferenced nodes deleted (ModeLatest) or inactive with the exact height at which they died (ModeGC); every node of every retained root present "
+         "and decodable; GC(G) removes nothing heights >= G need; retained roots read exactly, dropped roots fail or read exactly. Histories are TLC-generated from "
+         "MPTRefImpl (on which TLC exhaustively proves Impl => Abstract, incl. blocks computed but never committed) and seeded random over six key universes; they "
+         "run on stateroot.Module (PutBatch path), on mpt.Trie (single Put/Delete path) and on a full core.Blockchain with KeepOnlyLatestState / "
+         "RemoveUntraceableBlocks (flushes and GC placed through the verif hooks).",
+         "DESIGN.md section 4 C11",
+         "Trusted: the harness's own decoder of raw records (cross-checked against the real decoder and the key hash); table read through the top write cache; the "
+         "chain-layer GC height taken from the module's log entry. Model universes are tiny (3-4 keys, 1-2 values, 3-5 blocks). Completeness of GC (everything "
+         "inactive <= G actually removed) is not judged.",
+         "TLA+ abstract judge + code-shaped model (TLC exhaustive); TLC behaviours replayed on real code; dumped node tables validated by TLC"),
+ "C20": ("model_checking",
+         "Block queue: BlockQueueAbs states the first sentence of the statement (applied in index order, each at most once, reaches the highest contiguous block "
+         "given); BlockQueue is a program-counter model of bqueue/queue.go (Put = height read + locked section, Blocking wait loop, Run = wait, read height, locked "
+         "read + cleanup, AddItem, locked clear; Discard; External writer; Requester transcribed from Server.requestBlocks). TLC checks exhaustively that it refines "
+         "the abstract spec plus NoStuck, WindowOnly, NoPanic, LenExact, ReqNotStarved and convergence under weak fairness (Cap 2-3, 2-3 producers, <=8 Puts, "
+         "Blocking mode, Discard, H0>0); named deviations are caught. TLC behaviours, BFS witnesses of named situations and ~4,000 (quick) / 40,000 (thorough) "
+         "random schedules run on the REAL bqueue.Queue with real goroutines gated at Height()/AddItem() (two-phase gates reproduce stale reads); every scenario is "
+         "drained to a quiescent state decided from goroutine states, completed, and judged event by event by TLC (BlockQueueTrace). State synchronisation: see "
+         "level_note.",
+         "DESIGN.md section 4 C20",
+         "The harness ledger accepts exactly height+1 (the real ledger is C06's subject). Server.requestBlocks is transcribed by hand. The wake-up receive has no "
+         "gate: delayed-wake schedules are covered by the model only. The Go goroutine-dump format is trusted for the 'parked' decision (a format change gives exit "
+         "2). Outside the statement, reported in the evidence only: the runner is not re-signalled when the ledger advances by another writer. The state-sync half "
+         "of the statement is covered at crash-point level by C02's jump worlds; a dedicated StateSync model/harness is registered here when built.",
+         "TLA+ PC model + refinement checked by TLC; gated goroutine replay on the real queue; TLC trace validation"),
 }
 
 NOT_YET = {}   # id -> reason (properties not (yet) claimed)
